@@ -467,6 +467,12 @@ def downloadCodecCheckLen : Nat := 48
 def hDownTest (cd : Codec) (domLen : Nat) (σ : Srv) (m : Msg) (code : Nat) : Srv × Ans :=
   (σ, finish cd m domLen 2 code downloadCodecCheckLen (.downOk code))
 
+/-- the upstream codec of `user.Serializer` when a user was found, of the default serializer otherwise -/
+def upOf (σ : Srv) (user : Option Nat) : Nat :=
+  match user with
+  | some s => (σ.sess s).up
+  | none => 84
+
 /-- first entry of the command table whose letter matches the request -/
 def findCmd : List (Nat × Bool × Bool × Bool) → List Nat → Res (Option (Nat × Bool × Bool × Bool))
   | [], _ => pure none
@@ -489,9 +495,7 @@ def onMessage (cd : Codec) (dom : List Nat) (σ : Srv) (m : Msg) : Res (Srv × A
     | none => pure (σ, .drop)
     | some (_, uid) =>
       let (σ1, user, uerr) ← validate σ uid m.addr
-      let up := match user with
-        | some s => (σ1.sess s).up
-        | none => 84
+      let up := upOf σ1 user
       if user.isNone && needsUser then pure (σ1, errAns cd m domLen 101 1 84 0 SA.Gen.errBadUser)
       else if user.isSome && uerr = .badConn then pure (σ1, errAns cd m domLen 101 1 84 0 SA.Gen.errBadConn)
       else do
